@@ -302,7 +302,7 @@ class QlassF(QCircuitWrapper):
 
         if isinstance(f, str):
             exec(f, globals())
-        original_f = eval(fun_ast.body[0].name) if isinstance(f, str) else f
+        original_f = globals()[fun_ast.body[0].name] if isinstance(f, str) else f
 
         def _do_translate(fun_ast, original_f):
             # print(ast.dump(fun_ast, indent=4))
